@@ -286,6 +286,10 @@ def load_program(use_cache=True, verbose=False):
         paths[rel] = out
         if use_cache and os.path.exists(out):
             info["cache_units"] += 1
+            try:
+                os.utime(out, None)      # mark as in use: concurrent runs evict only files untouched for hours
+            except OSError:
+                pass
         else:
             todo.append(rel)
     info["extracted_units"] = len(todo)
@@ -322,7 +326,7 @@ def load_program(use_cache=True, verbose=False):
         for fn in os.listdir(workdir):
             if fn not in cur and fn.endswith(".json"):
                 try:
-                    if time.time() - os.path.getmtime(os.path.join(workdir, fn)) > 3600:
+                    if time.time() - os.path.getmtime(os.path.join(workdir, fn)) > 6 * 3600:
                         os.remove(os.path.join(workdir, fn))
                 except OSError:
                     pass
